@@ -88,6 +88,35 @@ pub fn edits(prog: &Program, tier: Tier) -> Vec<Edit> {
                 }
             }
         }
+        // E1n: names that never were columns but exist somewhere in the resolver's tables while the transform is
+        // being resolved — the field names of a range (`start`, `end`), the alias inside a tuple argument of an
+        // earlier call, the parameter of a user function, an alias defined later in the same tuple, a column
+        // local to an inner pipeline
+        if closed {
+            if let Some(c) = f.referencable().first().and_then(|&i| f.refname(i)) {
+                let bare_taken = |n: &str| f.cols.iter().any(|x| x.name.as_deref() == Some(n)) || names_ever(prog, &frames).contains(n);
+                let mut fam: Vec<(String, String, &str)> = vec![];
+                for leaked in ["start", "end"] {
+                    if bare_taken(leaked) {
+                        continue;
+                    }
+                    fam.push((String::new(), format!("derive {{zp = ({c} | in 1..5), zq = {leaked}}}"), "a field name of the range in the sibling expression"));
+                    fam.push((String::new(), format!("filter ({c} | in 1..5) && {leaked} > 0"), "a field name of the range earlier in the same expression"));
+                    if tier == Tier::Thorough {
+                        fam.push((String::new(), format!("select {{zp = ({c} | in 1..5), zq = {leaked}}}"), "a field name of the range in the sibling expression"));
+                        fam.push((String::new(), format!("sort {{({c} | in 1..5), {leaked}}}"), "a field name of the range in the sibling sort key"));
+                        fam.push((String::new(), format!("aggregate {{zp = max ({c} | in 1..5), zq = sum {leaked}}}"), "a field name of the range in the sibling aggregate"));
+                    }
+                }
+                fam.push(("let ftup = tup -> 1\n".into(), format!("derive {{zp = (ftup {{zy = {c} + 1}}), zq = zy}}"), "the alias inside a tuple argument of the sibling call"));
+                fam.push(("let fpar = px -> px + 1\n".into(), format!("derive {{zp = fpar {c}, zq = px}}"), "the parameter name of a user function called in the sibling expression"));
+                fam.push((String::new(), format!("derive {{zq = zp2 + 1, zp2 = {c}}}"), "an alias defined later in the same tuple"));
+                fam.push((String::new(), format!("group {{{c}}} (derive {{ztmp = 1}} | aggregate {{zs = sum ztmp}}) | filter ztmp > 0"), "a column local to the inner pipeline of group"));
+                for (defs, u, what) in fam {
+                    out.push(Edit { kind: "E1n-never-a-column", text: format!("{defs}{text}{u}\n"), what: format!("{what} is not a column of the fully known frame after step {j}") });
+                }
+            }
+        }
         // E2: bare name matching columns of two fully known relations, directly after the join
         if closed && j > 0 && matches!(m.steps[j - 1], Step::Join { .. }) {
             let mut seen: BTreeSet<&str> = BTreeSet::new();
